@@ -135,6 +135,33 @@ def rule_infinity_by_y(ctx: Ctx, rep: Report) -> None:
     rep.floor(rule, 1)
 
 
+def rule_operand_reduced(ctx: Ctx, rep: Report) -> None:
+    """C01.operand_reduced: "exact for every operand" -- the modular helpers take
+    any integer, so the operand is reduced (`a %= p`) before anything compares
+    it with a residue: `a == 0`, a Legendre symbol, a `pow`. An operand that is
+    a non-zero multiple of the modulus is 0 and has the root 0; compared before
+    the reduction it is "not zero", its symbol is 0, and it is refused."""
+    rule = "C01.operand_reduced"
+    n = 0
+    for q in (f"{NT}.legendre_symbol_var", f"{NT}.mod_sqrt_var", f"{NT}.tonelli_var"):
+        fi = ctx.func(q)
+        a, m = fi.params()[:2]
+        g = ctx.cfg(fi)
+        red = [x for x in own_nodes(fi.node) if (isinstance(x, ast.AugAssign) and isinstance(x.op, ast.Mod) and norm(x.target) == a and norm(x.value) == m)
+               or (isinstance(x, ast.Assign) and norm(x.targets[0]) == a and isinstance(x.value, ast.BinOp) and isinstance(x.value.op, ast.Mod) and norm(x.value.left) == a and norm(x.value.right) == m)]
+        uses = [x for x in own_nodes(fi.node) if (isinstance(x, ast.Compare) and any(isinstance(y, ast.Name) and y.id == a for y in [x.left] + list(x.comparators)))
+                or (isinstance(x, ast.Call) and call_name(x) in ("pow", "legendre_symbol_var", "tonelli_var") and any(isinstance(y, ast.Name) and y.id == a for y in x.args))]
+        n += 1
+        if not red:
+            rep.ob(rule, q, False, fi.where(), f"`{a}` is never reduced mod `{m}`: a multiple of the modulus is compared as it came")
+            continue
+        rn = [i for r in red for i in g.nodes_containing(r)]
+        bad = [u for u in uses if g.path_avoiding(g.nodes_containing(u), rn) is not None]
+        rep.ob(rule, q, not bad, fi.where(bad[0] if bad else red[0]), f"`{a} %= {m}` precedes every comparison and power of the operand" if not bad else
+               f"`{norm(bad[0])[:60]}` is reached with the operand as it came: a non-zero multiple of the modulus is not recognised as zero and is refused (or answered) as something else")
+    rep.floor(rule, 3)
+
+
 def rule_reduce(ctx: Ctx, rep: Report) -> None:
     """C01.reduce: the scalar handed to a multiplication is reduced mod the order."""
     rule = "C01.reduce"
@@ -250,12 +277,15 @@ RULES = [
     ("C01.on_curve", rule_on_curve),
     ("C01.infinity_by_y", rule_infinity_by_y),
     ("C01.reduce", rule_reduce),
+    ("C01.operand_reduced", rule_operand_reduced),
     ("C01.curve_ctor", rule_curve_ctor),
     ("C01.refuse_arith", rule_refuse_arith),
     ("C01.sec_prefix", rule_sec_prefix),
 ]
 
 CONTROLS = [
+    {"rule": "C01.operand_reduced", "name": "tonelli_var compares the operand before reducing it", "module": NT,
+     "edit": lambda ctx: M.sub_expr(ctx, f"{NT}.tonelli_var", lambda n: isinstance(n, ast.AugAssign) and isinstance(n.op, ast.Mod), "pass")},
     {"rule": "C01.infinity_by_y", "name": "double_mult_var asks for infinity by equality with INF", "module": "btclib.curves.curve",
      "edit": lambda ctx: M.sub_expr(ctx, "btclib.curves.curve.double_mult_var", lambda n: isinstance(n, ast.BoolOp) and "H[1]" in norm(n) and "_libsecp256k1_serves" in norm(n),
                                     "u and v and INF not in (H, Q) and _libsecp256k1_serves(ec, None)")},
